@@ -523,8 +523,7 @@ func c16(p *core.Prog, r *core.Report) {
 		// in the close callback the second peer lookup is guarded by outboundHP != remote HostPort
 		rem := ""
 		for _, ls := range peerLookupsDeep(p, ccs) {
-			c := ls.At
-			for _, cm := range factsAt(c.Block()).cmps {
+			for _, cm := range ls.guards().cmps {
 				if cm.Op != token.NEQ {
 					continue
 				}
